@@ -25,7 +25,10 @@ def setup_runtime():
     loader.install()
     from vf import rt
     rt._late()
-    logging.disable(logging.CRITICAL)
+    if os.environ.get("VF_LOG"):
+        logging.basicConfig(level=logging.DEBUG)
+    else:
+        logging.disable(logging.CRITICAL)
     import types
     # formatting stub: repr(packet) is used for log lines only; on symbolic paths it gets an empty body
     import scapy.packet
